@@ -1537,6 +1537,22 @@ Section PlainReadable.
     apply andb_true_iff in E. destruct E as [E1 E2]. apply Z.eqb_eq in E1. f_equal; auto.
   Qed.
 
+  (* an oracle that answers every in-range query with an in-range length *)
+  Definition orc_total : Prop := forall i st, 0 <= i < Z.of_nat N ->
+    exists n br st', orc i st = Some (n, br, st') /\ 0 < n <= Z.of_nat N - i.
+
+  Theorem plain_done : orc_total -> snd (plain_scan orc W input) = Done.
+  Proof.
+    clear Hcells. intros Ht. destruct (Nat.eq_dec N 0) as [HN|HN].
+    - destruct input; [reflexivity|discriminate].
+    - apply (run_done Z (plain_segf N orc) plain_reset cell_is_space cell_hasbreak plain_residue
+                        (plain_seg_ok _ _ Hend) input W HW).
+      intros st rest Hne. unfold plain_segf. destruct rest as [|c r]; [congruence|]. set (rest := c :: r) in *.
+      assert (Hl : (0 < length rest)%nat) by (cbn; lia).
+      destruct (Ht (Z.of_nat (N - length rest)) st ltac:(lia)) as [n [br [st' [E Hn]]]].
+      rewrite E. replace ((0 <? n) && (n <=? zlen rest)) with true by (unfold zlen; lia). discriminate.
+  Qed.
+
   Variables B Hd : nat -> bool.
   Hypothesis Hc : orc_consistent orc input B Hd.
   Hypothesis HdB : forall e, (e < N)%nat -> Hd e = true -> B e = true.
@@ -1554,21 +1570,6 @@ Section PlainReadable.
              (fun st p q _ => pv_reset orc q) HdB (-1) lines o (pv_reset orc 0) H).
   Qed.
 
-  (* an oracle that answers every in-range query with an in-range length *)
-  Definition orc_total : Prop := forall i st, 0 <= i < Z.of_nat N ->
-    exists n br st', orc i st = Some (n, br, st') /\ 0 < n <= Z.of_nat N - i.
-
-  Theorem plain_done : orc_total -> snd (plain_scan orc W input) = Done.
-  Proof.
-    intros Ht. destruct (Nat.eq_dec N 0) as [HN|HN].
-    - destruct input; [reflexivity|discriminate].
-    - apply (run_done Z (plain_segf N orc) plain_reset cell_is_space cell_hasbreak plain_residue
-                        (plain_seg_ok _ _ Hend) input W HW).
-      intros st rest Hne. unfold plain_segf. destruct rest as [|c r]; [congruence|]. set (rest := c :: r) in *.
-      assert (Hl : (0 < length rest)%nat) by (cbn; lia).
-      destruct (Ht (Z.of_nat (N - length rest)) st ltac:(lia)) as [n [br [st' [E Hn]]]].
-      rewrite E. replace ((0 <? n) && (n <=? zlen rest)) with true by (unfold zlen; lia). discriminate.
-  Qed.
 End PlainReadable.
 
 Section RichReadable.
@@ -1776,3 +1777,134 @@ Lemma ex_runs :
   map (fun x => flat (fst x)) (fst (plain_scan (tbl_orc ex2_tbl) 2 ex2_input)) = [[102; 111]; [111]; [98; 97]; [114]] /\
   cuts_of 7 (fst (plain_scan (tbl_orc ex2_tbl) 2 ex2_input)) = [2; 4; 6; 7]%nat.
 Proof. vm_compute. repeat split; reflexivity. Qed.
+
+(* ---------- Draw ---------- *)
+Lemma container_size_spec MaxW MaxH : 0 <= MaxW -> forall lines W0 H0 W H,
+  0 <= H0 -> H0 + zlen lines < 65536 -> 0 <= W0 <= MaxW ->
+  container_size lines MaxW MaxH W0 H0 = (W, H) ->
+  H = (if MaxH <=? H0 then H0 else Z.min (H0 + zlen lines) MaxH) /\ 0 <= W <= MaxW.
+Proof.
+  intros HM. induction lines as [|l t IH]; intros W0 H0 W H HH0 Hlen HW0 E; cbn [container_size] in E.
+  - injection E as <- <-. rewrite zlen_nil. split; [|lia]. destruct (MaxH <=? H0) eqn:E1; lia.
+  - rewrite zlen_cons in Hlen. pose proof (zlen_nonneg t).
+    destruct (MaxH <=? H0) eqn:E1; [injection E as <- <-; split; lia|].
+    rewrite u16_id in E by lia. pose proof (u16sum_range l) as Hr.
+    apply IH in E; try lia.
+    + destruct E as [E2 E3]. split; [|exact E3]. rewrite zlen_cons. destruct (MaxH <=? H0 + 1) eqn:E4; lia.
+    + destruct (W0 <? u16sum l); destruct (MaxW <? _) eqn:E5; lia.
+Qed.
+
+Definition line_ok (l : list cell) : Prop := wok l /\ sumw l < 65536.
+
+Lemma cell_at_off restyle W chars : forall col c acc, W <= col -> cell_at restyle W chars col c acc = acc.
+Proof. destruct chars; intros; cbn [cell_at]; [reflexivity|]. replace (W <=? col) with true by lia. reflexivity. Qed.
+
+Lemma draw_chars_spec restyle MaxW W H row : 0 <= W <= MaxW -> MaxW < 65536 -> 0 <= row -> 0 <= H ->
+  forall chars col buf, wok chars -> 0 <= col -> col + sumw chars < 65536 -> zlen buf = H * W ->
+  exists buf', draw_chars restyle MaxW W H row chars col buf = Some buf' /\ zlen buf' = H * W /\
+    forall i c cur, 0 <= i < H -> 0 <= c < W -> zget buf (i * W + c) = Some cur ->
+      zget buf' (i * W + c) = Some (if i =? row then cell_at restyle W chars col c cur else cur).
+Proof.
+  intros HW HM Hrow HH. induction chars as [|ch t IH]; intros col buf Hwok Hcol Hsum Hlen; cbn [draw_chars].
+  - exists buf. split; [reflexivity|]. split; [auto|]. intros i c cur Hi Hc Hg. cbn [cell_at].
+    destruct (i =? row); exact Hg.
+  - inversion Hwok as [|? ? Hch Ht]; subst. rewrite sumw_cons in Hsum. pose proof (sumw_nonneg t Ht) as Hnt.
+    assert (Hcw : cw ch = c_width ch) by (unfold cw; apply u16_id; lia).
+    destruct (MaxW <=? col) eqn:E1.
+    { exists buf. split; [reflexivity|]. split; [auto|]. intros i c cur Hi Hc Hg.
+      rewrite cell_at_off by lia. destruct (i =? row); exact Hg. }
+    rewrite Hcw, (u16_id (col + c_width ch)) by lia. unfold write_cell.
+    destruct ((W <=? col) || (H <=? row)) eqn:E2.
+    + destruct (IH (col + c_width ch) buf Ht ltac:(lia) ltac:(lia) Hlen) as [buf' [D1 [D2 D3]]].
+      exists buf'. split; [exact D1|]. split; [exact D2|]. intros i c cur Hi Hc Hg.
+      rewrite (D3 i c cur Hi Hc Hg). destruct (i =? row) eqn:Ei; [|reflexivity].
+      cbn [cell_at]. destruct (W <=? col) eqn:E3.
+      * rewrite cell_at_off by lia. reflexivity.
+      * (* then H <= row, impossible for i = row < H *) lia.
+    + assert (Hidx : 0 <= row * W + col < zlen buf) by nia.
+      destruct (proj2 (zupd_some_iff buf (row * W + col) (restyle ch)) Hidx) as [buf1 Hu].
+      rewrite Hu. pose proof (zupd_length _ _ _ _ Hu) as Hl1.
+      destruct (IH (col + c_width ch) buf1 Ht ltac:(lia) ltac:(lia) ltac:(lia)) as [buf' [D1 [D2 D3]]].
+      exists buf'. split; [exact D1|]. split; [exact D2|]. intros i c cur Hi Hc Hg.
+      cbn [cell_at]. replace (W <=? col) with false by lia.
+      destruct (Z.eq_dec (row * W + col) (i * W + c)) as [He|Hne].
+      * assert (Hir : i = row).
+        { destruct (Z.lt_trichotomy i row) as [Hx1|[Hx2|Hx3]]; auto; exfalso.
+          - assert ((row - i) * W >= 1 * W) by (apply Zmult_ge_compat_r; lia). lia.
+          - assert ((i - row) * W >= 1 * W) by (apply Zmult_ge_compat_r; lia). lia. }
+        subst i. assert (c = col) by lia. subst c.
+        rewrite (D3 row col (restyle ch) Hi Hc); [|eapply zget_zupd_same; eauto].
+        rewrite !Z.eqb_refl. reflexivity.
+      * rewrite (D3 i c cur Hi Hc); [|rewrite (zget_zupd_other _ _ _ _ _ Hu Hne); exact Hg].
+        destruct (i =? row) eqn:Ei; [|reflexivity].
+        assert (i = row) by lia. subst i. replace (col =? c) with false by lia. reflexivity.
+Qed.
+
+Lemma draw_rows_spec restyle MaxW MaxH W H : 0 <= W <= MaxW -> MaxW < 65536 -> 0 <= H ->
+  forall lines row buf, Forall line_ok lines -> 0 <= row -> row + zlen lines < 65536 -> zlen buf = H * W ->
+  exists buf', draw_rows restyle MaxW MaxH W H lines row buf = Some buf' /\ zlen buf' = H * W /\
+    forall i c cur, 0 <= i < H -> 0 <= c < W -> zget buf (i * W + c) = Some cur ->
+      zget buf' (i * W + c) =
+        Some (match zget lines (i - row) with
+              | Some l => if (row <=? i) && (i <=? MaxH) then cell_at restyle W l 0 c cur else cur
+              | None => cur
+              end).
+Proof.
+  intros HW HM HH. induction lines as [|l t IH]; intros row buf Hok Hrow Hlen Hb; cbn [draw_rows].
+  - exists buf. split; [reflexivity|]. split; [auto|]. intros i c cur Hi Hc Hg.
+    replace (zget [] (i - row)) with (@None (list cell)) by (unfold zget; destruct (i - row <? 0); [reflexivity|destruct (Z.to_nat (i - row)); reflexivity]).
+    exact Hg.
+  - inversion Hok as [|? ? [Hl1 Hl2] Ht]; subst. rewrite zlen_cons in Hlen. pose proof (zlen_nonneg t).
+    destruct (MaxH <? row) eqn:E1.
+    + exists buf. split; [reflexivity|]. split; [auto|]. intros i c cur Hi Hc Hg.
+      destruct (zget (l :: t) (i - row)); [|exact Hg].
+      replace ((row <=? i) && (i <=? MaxH)) with false by lia. exact Hg.
+    + destruct (draw_chars_spec restyle MaxW W H row HW HM Hrow HH l 0 buf Hl1 ltac:(lia) ltac:(lia) Hb) as [b1 [D1 [D2 D3]]].
+      rewrite D1, u16_id by lia.
+      destruct (IH (row + 1) b1 Ht ltac:(lia) ltac:(lia) D2) as [b2 [R1 [R2 R3]]].
+      exists b2. split; [exact R1|]. split; [exact R2|]. intros i c cur Hi Hc Hg.
+      rewrite (R3 i c _ Hi Hc (D3 i c cur Hi Hc Hg)).
+      destruct (Z.eq_dec i row) as [->|Hne].
+      * rewrite Z.sub_diag, zget_cons_0, Z.eqb_refl.
+        replace (zget t (row - (row + 1))) with (@None (list cell)) by (unfold zget; replace (row - (row + 1) <? 0) with true by lia; reflexivity).
+        replace ((row <=? row) && (row <=? MaxH)) with true by lia. reflexivity.
+      * replace (i =? row) with false by lia.
+        destruct (Z_lt_dec i row) as [Hlt|Hge].
+        -- replace (zget t (i - (row + 1))) with (@None (list cell)) by (unfold zget; replace (i - (row + 1) <? 0) with true by lia; reflexivity).
+           destruct (zget (l :: t) (i - row)); [|reflexivity].
+           replace ((row <=? i) && (i <=? MaxH)) with false by lia. reflexivity.
+        -- rewrite (zget_cons_S l t (i - row)) by lia. replace (i - row - 1) with (i - (row + 1)) by lia.
+           destruct (zget t (i - (row + 1))); [|reflexivity].
+           replace ((row + 1 <=? i) && (i <=? MaxH)) with ((row <=? i) && (i <=? MaxH)) by lia. reflexivity.
+Qed.
+
+Lemma zget_zrepeat {A} (x : A) n i : 0 <= i < n -> zget (zrepeat x n) i = Some x.
+Proof.
+  intros H. unfold zget, zrepeat. replace (i <? 0) with false by lia.
+  rewrite nth_error_repeat; [reflexivity|lia].
+Qed.
+
+(* Text.Draw / RichText.Draw (soft-wrap): no panic, and the surface shows exactly the lines, one per row *)
+Theorem draw_softwrap_ok restyle fill lines MaxW MaxH :
+  0 <= MaxW < 65536 -> 0 <= MaxH < 65536 -> zlen lines < 65536 -> Forall line_ok lines ->
+  exists obs, draw_softwrap restyle fill lines MaxW MaxH = Some obs /\
+              surface_ok_b restyle fill lines MaxW MaxH obs = true.
+Proof.
+  intros HMW HMH Hlen Hok. unfold draw_softwrap.
+  destruct (container_size lines MaxW MaxH 0 0) as [W H] eqn:Ec.
+  apply container_size_spec in Ec; try lia. destruct Ec as [EH EW].
+  pose proof (zlen_nonneg lines) as Hn.
+  assert (HH : H = Z.min (zlen lines) MaxH) by (destruct (MaxH <=? 0) eqn:E; lia).
+  assert (HH0 : 0 <= H) by lia.
+  assert (Hb0 : zlen (zrepeat (blank fill) (H * W)) = H * W) by (apply zlen_repeat; nia).
+  destruct (draw_rows_spec restyle MaxW MaxH W H EW ltac:(lia) HH0 lines 0 _ Hok ltac:(lia) ltac:(lia) Hb0) as [buf [D1 [D2 D3]]].
+  rewrite D1. exists (W, H, buf). split; [reflexivity|].
+  unfold surface_ok_b. replace (H =? Z.min (zlen lines) MaxH) with true by lia.
+  replace (zlen buf =? H * W) with true by lia. replace (W <=? MaxW) with true by lia. cbn [andb].
+  apply forallb_forall. intros i Hi. apply in_map_iff in Hi. destruct Hi as [ni [<- Hi]]. apply in_seq in Hi.
+  apply forallb_forall. intros c Hc. apply in_map_iff in Hc. destruct Hc as [nc [<- Hc]]. apply in_seq in Hc.
+  assert (Hi' : 0 <= Z.of_nat ni < H) by lia. assert (Hc' : 0 <= Z.of_nat nc < W) by lia.
+  rewrite (D3 _ _ (blank fill) Hi' Hc') by (apply zget_zrepeat; nia).
+  rewrite Z.sub_0_r. destruct (zget_in_range lines (Z.of_nat ni) ltac:(lia)) as [l Hl]. rewrite Hl.
+  replace ((0 <=? Z.of_nat ni) && (Z.of_nat ni <=? MaxH)) with true by lia. unfold cell_eqb. rewrite !Z.eqb_refl. replace (zlist_eqb _ _) with true; [reflexivity|]. symmetry. unfold zlist_eqb. generalize (c_runes (cell_at restyle W l 0 (Z.of_nat nc) (blank fill))). intros r; induction r as [|x r IHr]; cbn; [reflexivity|]. rewrite Z.eqb_refl, IHr. reflexivity.
+Qed.
